@@ -247,7 +247,11 @@ class Scenario:
         post = self.post_calls()
         if post and status == "ok" and not exc:
             self.rec.bind(n)
-            res.append(self._run_calls(n, post))
+            try:
+                res.append(self._run_calls(n, post))
+            except sched.Abandoned:
+                # the object is unusable after the run: a lock was left held, the post call can never return
+                res.append([[9, 8] for _ in post])
         elif post:
             res.append([])
         # a call that never returned (deadlock) shows as a missing result -> pad with an error marker
@@ -265,6 +269,13 @@ class Scenario:
             shutil.rmtree(self.tmp, ignore_errors=True)
 
 
+_FAIL_FOR = set()          # idents of threads whose next guarded access raises
+
+
+class InjectedFault(RuntimeError):
+    """raised by the guards inside a component's critical section to model an inner step that fails"""
+
+
 class _GuardedBacking:
     """wraps the backing cache: every access must happen while the SynchronizedCache lock is held"""
     def __init__(self, backing, owner, rec):
@@ -276,6 +287,9 @@ class _GuardedBacking:
         lk = getattr(self._o, "_lock", None)
         if not (isinstance(lk, sched.CoopLock) and lk.owner is not None):
             self._rec.guard_violations += 1
+        if threading.get_ident() in _FAIL_FOR:     # the fault is injected into the injecting thread's call only
+            _FAIL_FOR.discard(threading.get_ident())
+            raise InjectedFault("backing cache fails")
 
     def clear(self):
         self._chk()
@@ -343,6 +357,16 @@ class CacheScenario(Scenario):
                 return [4]
         if op == 4:
             return [3, len(c)]
+        if op == 6:
+            # an access whose inner step raises while the lock is held: the exception is the call's result
+            _FAIL_FOR.add(threading.get_ident())
+            try:
+                c.get(call[1])
+            except InjectedFault:
+                return [8]
+            finally:
+                _FAIL_FOR.discard(threading.get_ident())
+            return [9, 0]
         c.clear()
         return [5]
 
@@ -403,6 +427,11 @@ class TextScenario(Scenario):
 
     def _write(self, w):
         c = self.case
+        if c["bad"][w] == 2:
+            # the window of a delete-and-recreate replacement: the file does not exist
+            if os.path.exists(self.path):
+                os.remove(self.path)
+            return
         tmp = self.path + ".new"
         with open(tmp, "w") as f:
             f.write(text_content(c["contents"][w], c["bad"][w]))
@@ -429,6 +458,8 @@ class TextScenario(Scenario):
             if "does not match" in str(e) or "Error while parsing" in str(e):
                 return [8]
             raise
+        except FileNotFoundError:
+            return [8]
 
     def post_calls(self):
         last = len(self.case["edits"])
@@ -485,6 +516,10 @@ class _GuardedConn:
 
     def execute(self, *a, **k):
         self._chk()
+        if threading.get_ident() in _FAIL_FOR:
+            _FAIL_FOR.discard(threading.get_ident())
+            import sqlite3
+            raise sqlite3.OperationalError("injected: disk I/O error")
         return _GuardedCursor(self._c.execute(*a, **k), self)
 
     def __getattr__(self, n):
@@ -524,6 +559,17 @@ class StoreScenario(Scenario):
         elif op == 5:
             st.delete_data(str(call[1]))
             r = [5]
+        elif op == 6:
+            # a statement that fails inside the critical section (sqlite error)
+            import sqlite3
+            _FAIL_FOR.add(threading.get_ident())
+            try:
+                st.get_data(str(call[1]))
+                r = [9, 0]
+            except sqlite3.OperationalError:
+                r = [8]
+            finally:
+                _FAIL_FOR.discard(threading.get_ident())
         else:
             r = [7] + sorted(int(s) for s in st.find_systems(str(call[1]), call[2]))
         if self.rec.guard_violations != before:
@@ -531,7 +577,7 @@ class StoreScenario(Scenario):
         return r
 
     def post_calls(self):
-        syss = sorted({c[1] for l in self.case["calls"] for c in l if c[0] in (0, 1, 2, 3, 5)})
+        syss = sorted({c[1] for l in self.case["calls"] for c in l if c[0] in (0, 1, 2, 3, 5, 6)})
         return [[3, s] for s in syss]
 
     def cleanup(self):
@@ -558,6 +604,8 @@ def _memo_safe_load(text):
 
 
 def yaml_text(pairs):
+    if [tuple(p) for p in pairs] == [(0, 0)]:
+        return "{\n"                # an unparsable file version: compile_data raises
     return "".join(f"{k}: {v}\n" for k, v in pairs) or "{}\n"
 
 
@@ -622,7 +670,12 @@ class YamlScenario(Scenario):
         return [(0, 3), (n - 3, n)]
 
     def do(self, call):
-        data, _version = self.src.get_data("sys", {}, "")
+        try:
+            data, _version = self.src.get_data("sys", {}, "")
+        except RuntimeError as e:
+            if "Error processing data file" in str(e):
+                return [8]
+            raise
         return [x for k, v in data.items() for x in (int(k), int(v))]
 
     def post_calls(self):
@@ -688,6 +741,27 @@ class C19(Check):
                "cache_enabled": 1}
         out.append((dict(bad, calls=[[[0, 1], [0, 1]], [[0, 1]]]), b2))
         out.append((dict(bad, calls=[[[0, 1], [0, 1], [0, 1]]]), b2))
+        # failure-then-continue: an operation whose inner step raises while the lock is held (unparsable file,
+        # file absent during a delete-and-recreate), followed by more operations on the SAME object from the
+        # same and from another thread; the failed call's answer is its exception, later calls complete and
+        # see the current data
+        for badkind in (1, 2):
+            fb = {"comp": "text", "contents": [[(1, 10)], [], [(1, 12)]], "bad": [0, badkind, 0], "edits": [0, 0],
+                  "cache_enabled": 1}
+            out.append((dict(fb, calls=[[[1, 10], [1, 12]], [[0, 1]]]), b2))
+            out.append((dict(fb, calls=[[[1, 10], [1, 12], [0, 1]], [[1, 12], [1, 10]]]), b1))
+        fb0 = {"comp": "text", "contents": [[], [(1, 10)]], "bad": [1, 0], "edits": [0], "cache_enabled": 1}
+        out.append((dict(fb0, calls=[[[1, 10], [1, 10]], [[0, 1]]]), b2))
+        out.append((dict(fb0, cache_enabled=0, calls=[[[1, 10], [0, 1]], [[1, 10]]]), b1))
+        out.append(({"comp": "cache", "cap": 2, "calls": [[[1, 1, 1], [6, 1], [0, 1]], [[6, 2], [1, 2, 2]]]}, b1))
+        out.append(({"comp": "cache", "cap": 2, "calls": [[[3, 7], [1, 1, 1], [0, 1]], [[3, 7], [4]]]}, b1))
+        out.append(({"comp": "store", "calls": [[[0, 1, 1, 5], [6, 1], [1, 1, 1]], [[6, 1], [3, 1]]]}, b1))
+        ybad = [[[(0, 0)], [(1, 2)]], [[(3, 1)]]]
+        out.append(({"comp": "yaml", "table": ybad, "tree": [0, 1], "w0": [0, 0], "edits": [0], "calls": [[[0], [0]]]}, b2))
+        out.append(({"comp": "yaml", "table": ybad, "tree": [0, 1], "w0": [0, 0], "edits": [0],
+                     "calls": [[[0], [0]], [[0]]]}, b1))
+        ygb = [[[(1, 1)], [(0, 0)]], [[(3, 1)]]]
+        out.append(({"comp": "yaml", "table": ygb, "tree": [0, 1], "w0": [0, 0], "edits": [0], "calls": [[[0], [0]]]}, b2))
         # cache
         for cap, calls in ((1, [[[1, 1, 1], [0, 1]], [[1, 2, 2]]]),
                            (2, [[[1, 1, 1], [0, 1]], [[1, 2, 2], [1, 3, 3]]]),
@@ -752,7 +826,7 @@ class C19(Check):
         if comp == "cache":
             return sx([0, c["cap"], calls, st, sch, res])
         if comp == "text":
-            return sx([1, [[list(p) for p in w] for w in c["contents"]], c["bad"], c["cache_enabled"], calls, st, sch, res])
+            return sx([1, [[list(p) for p in w] for w in c["contents"]], [1 if b else 0 for b in c["bad"]], c["cache_enabled"], calls, st, sch, res])
         if comp == "store":
             return sx([2, calls, st, sch, res])
         ncalls = [len(l) for l in calls]
